@@ -118,7 +118,8 @@ func scanSpaceToken(buf string, pos int) Token {
 			i = end - pos + 2
 		}
 		if isStringAt(buf, pos+i, "//") {
-			for ; !isCharAt(buf, pos+i, '\n'); i++ {
+			// up to the end of the line, or the end of the file when the last line is a comment.
+			for ; pos+i < len(buf) && buf[pos+i] != '\n'; i++ {
 			}
 		}
 	}
